@@ -162,6 +162,18 @@ def check_prop(res, rng, ast, names, payload=None):
         return f"query {fd[0]} answers differently after the round trip: {json.dumps(fd[1])[:300]} -> {json.dumps(fd[2])[:300]}"
     if sdump(pg.from_b64(m2.to_b64())) != d1:
         return "second round trip changes the structure"
+    # unpacking the same string again gives a NEW object with the packed structure, whatever was done to the first one
+    first = pg.from_b64(s)
+    cids = [x.id for x in all_nodes(first) if not is_var(x)]
+    try:
+        first.assume({rng.choice(cids): rng.choice([0, 1])})      # (assume() naming a compound re-binds that node in place: finding D2)
+        first.evaluate({cids[0]: 1})
+    except Exception:
+        pass
+    again = pg.from_b64(s)
+    res.evaluations += 1
+    if again is first or sdump(again) != d1:
+        return f"unpacking the same string a second time does not give the packed structure again (after the first unpacked object was used): {json.dumps(sdump(again))[:300]} vs {json.dumps(d1)[:300]}"
     # an object that has already answered queries must pack to the same thing as a fresh one
     used = build(ast)
     prop_queries(used, envs, prios)
